@@ -1,6 +1,9 @@
 package main
 
 import (
+	metav1 "k8s.io/apimachinery/pkg/apis/meta/v1"
+	"time"
+	"math/rand"
 	"encoding/json"
 	"fmt"
 	"net/http"
@@ -72,6 +75,52 @@ func newGateway(cfg *rest.Config, lookup clientsets.LookupFunc, shardCount int, 
 	return g
 }
 
+// publishedInfo: the ServerInfo a polled limiter server answers - the real rateLimiter.ServerInfo() of a server told
+// the round's leaders, with the time stamps and the order of its endpoints as the case scripts them (the gateway
+// polls servers whose clocks disagree; nothing obliges a server to sort its list).
+func publishedInfo(srv *env, sy SyncSpec) ([]byte, error) {
+	info, err := srv.rl.ServerInfo()
+	if err != nil {
+		return nil, err
+	}
+	if len(sy.Stamps) == len(sy.Leaders) {
+		const epoch = 1700000000
+		last := map[int32]int64{}
+		for i, e := range sy.Leaders {
+			last[int32(e.S)] = sy.Stamps[i]
+		}
+		for i := range info.Endpoints {
+			switch v := last[info.Endpoints[i].ShardID]; v {
+			case 0:
+			case 1:
+				info.Endpoints[i].LastChange = metav1.Time{}
+			default:
+				info.Endpoints[i].LastChange = metav1.NewTime(time.Unix(epoch+v, 0))
+			}
+		}
+	}
+	if sy.Perm != 0 {
+		r := rand.New(rand.NewSource(sy.Perm))
+		r.Shuffle(len(info.Endpoints), func(a, b int) { info.Endpoints[a], info.Endpoints[b] = info.Endpoints[b], info.Endpoints[a] })
+	}
+	return json.Marshal(info)
+}
+
+// stampChoices: one clock moving on, skewed clocks, a clock stepped back, the zero time, far past and far future.
+var stampChoices = []int64{0, 0, 1, 2, 5, 60, 3600, -3600, -5, 86400 * 365, -86400 * 365, 86400 * 365 * 80}
+
+func scriptInfo(c *rig.Ctx, sy *SyncSpec) {
+	if c.Rng.Intn(3) > 0 {
+		sy.Stamps = make([]int64, len(sy.Leaders))
+		for i := range sy.Stamps {
+			sy.Stamps[i] = rig.Pick(c.Rng, stampChoices)
+		}
+	}
+	if c.Rng.Intn(4) == 0 {
+		sy.Perm = 1 + c.Rng.Int63n(1000)
+	}
+}
+
 // A stricter gateway (one that declines to answer where the property does not oblige it to) is no violation: the
 // judges speak when the gateway NAMES a shard / ADDRESSES a server (or says it knows none although it has synced),
 // not when it answers some other error.
@@ -135,6 +184,7 @@ func genGateway(c *rig.Ctx, i int) Case {
 			e := rig.Pick(c.Rng, sy.Leaders)
 			sy.Leaders = append(sy.Leaders, EP{e.S, rig.Hex(rig.Pick(c.Rng, gwLeaders))})
 		}
+		scriptInfo(c, sy)
 		cs.Sync = sy
 	}
 	for len(cs.Names) < 12 {
@@ -243,12 +293,11 @@ func runGateway(c *rig.Ctx, cs Case, m mode) int {
 		for _, e := range cs.Sync.Leaders {
 			elector.VerifC13SetLeader(srv.le, int(e.S), rig.UnHex(e.L))
 		}
-		info, err := srv.rl.ServerInfo()
+		b, err := publishedInfo(srv, *cs.Sync)
 		if err != nil {
 			fail("diff", "c13.harness", "ServerInfo: "+err.Error(), nil, nil)
 			return v.flush(c, m)
 		}
-		b, _ := json.Marshal(info)
 		worldMu.Lock()
 		worldInfo = b
 		worldMu.Unlock()
